@@ -343,8 +343,8 @@ theorem rejectedStep_effs (c : Conn) (p : Pkt) : ∀ e ∈ (rejectedStep c p).2,
   by_cases h1 : p = .timeout
   · simp [h1] at he
   · by_cases h2 : c.phase = .rejected
-    · by_cases h3 : c.wedged = true
-      · simp [h1, h2, h3] at he
+    · by_cases h3 : p = .hangup
+      · simp [h3, h2] at he; subst he; rfl
       · have hq := readLoopPre_quiet c p
         simp only [beq_iff_eq, h1, if_false, h2, bne_self_eq_false, Bool.false_eq_true, h3] at he
         generalize hr : readLoopPre c p = r at he hq
@@ -362,7 +362,9 @@ theorem rejectedStep_effs (c : Conn) (p : Pkt) : ∀ e ∈ (rejectedStep c p).2,
             · exact hq e he
             · subst he; rfl
           · simp [hb] at he
-            exact hq e he
+            rcases he with he | he
+            · exact hq e he
+            · subst he; rfl
     · simp [h1, h2] at he
 
 theorem rejectedStep_phase (c : Conn) (p : Pkt) (h : c.phase = .rejected) :
@@ -370,8 +372,8 @@ theorem rejectedStep_phase (c : Conn) (p : Pkt) (h : c.phase = .rejected) :
   unfold rejectedStep
   by_cases h1 : p = .timeout
   · simp [h1, h]
-  · by_cases h3 : c.wedged = true
-    · simp [h1, h, h3]
+  · by_cases h3 : p = .hangup
+    · simp [h3, h]
     · simp only [beq_iff_eq, h1, if_false, h, bne_self_eq_false, Bool.false_eq_true, h3]
       generalize readLoopPre c p = r
       obtain ⟨effs, go⟩ := r
@@ -380,7 +382,12 @@ theorem rejectedStep_phase (c : Conn) (p : Pkt) (h : c.phase = .rejected) :
       | true =>
         by_cases hb : c.buffered < 8
         · simp [hb, h]
-        · simp [hb, h]
+        · simp [hb]
+
+/-- the server ends a rejected connection itself -/
+theorem rejected_hangup (c : Conn) (h : c.phase = .rejected) :
+    rejectedStep c .hangup = ({ c with phase := .closed }, [.closeSocket]) := by
+  simp [rejectedStep, h]
 
 theorem quiet_not_touch {e : Eff} (h : e.quiet = true) : e.touchesBroker = false := by
   cases e <;> simp [Eff.quiet] at h <;> rfl
@@ -437,6 +444,8 @@ theorem step_onlyAccept (cfg : Cfg) (c : Conn) (p : Pkt) : OnlyAccept (step cfg 
     rw [quiet_not_touch (rejectedStep_effs c p e he)] at ht; cases ht
   · -- awaitAuth
     split
+    · simp [OnlyAccept]
+    split
     · intro e he ht
       simp only [List.mem_append, List.mem_singleton] at he
       rcases he with (he | he) | he
@@ -458,6 +467,8 @@ theorem step_onlyAccept (cfg : Cfg) (c : Conn) (p : Pkt) : OnlyAccept (step cfg 
           simp only [Bool.not_true, Bool.false_eq_true, if_false]
           exact append_onlyAccept hpre (connectLoop_onlyAccept cfg c p)
   · -- awaitConnect
+    split
+    · simp [OnlyAccept]
     split
     · exact connectLoop_onlyAccept cfg c p
     · generalize hr : readLoopPre c p = r at hpre
